@@ -8,18 +8,18 @@ open Orx Orx.IW
 /-- **Safety survives panics.** `Fused` and `ReqOk` say nothing about panics: the wrapped iterator may panic at
 any call `k`. In every reachable configuration — every such iterator, all programs, every schedule — the
 invariant holds: the panicked thread keeps its ticket (pc `dead`), nobody else can enter the critical section, … -/
-theorem panic_keeps_mutual_exclusion (s : Script) (hf : Fused s) (ps : Nat → List Req) (hok : ∀ t, ∀ r ∈ ps t, ReqOk r)
+theorem panic_keeps_mutual_exclusion (s : Script) (ps : Nat → List Req) (hok : ∀ t, ∀ r ∈ ps t, ReqOk r)
     (σ : List Nat) (hW : (run s σ (init ps)).R < W) (t u : Nat) (htu : t ≠ u)
     (ht : ((run s σ (init ps)).th t).pc.inCS = true) (hu : ((run s σ (init ps)).th u).pc.inCS = true) : False :=
-  mutex (inv_reach s hf ps hok σ hW) t u htu ht hu
+  mutex (inv_reach s ps hok σ hW) t u htu ht hu
 
 /-- … and no position is delivered twice, to the panicking thread or to anybody else. -/
-theorem panic_no_duplicate (s : Script) (hf : Fused s) (ps : Nat → List Req) (hok : ∀ t, ∀ r ∈ ps t, ReqOk r)
+theorem panic_no_duplicate (s : Script) (ps : Nat → List Req) (hok : ∀ t, ∀ r ∈ ps t, ReqOk r)
     (σ : List Nat) (hW : (run s σ (init ps)).R < W) :
     (∀ t, ((run s σ (init ps)).th t).outs.Pairwise fun a b => ∀ p ∈ a.pos, ∀ q ∈ b.pos, p < q) ∧
     (∀ t u, t ≠ u → ∀ o ∈ ((run s σ (init ps)).th t).outs, ∀ o' ∈ ((run s σ (init ps)).th u).outs,
         ∀ p ∈ o.pos, ∀ q ∈ o'.pos, p ≠ q) :=
-  let h := oinv_run hf σ (inv_init s ps hok) (oinv_init s ps) hW
+  let h := oinv_run σ (inv_init s ps hok) (oinv_init s ps) hW
   ⟨h.sorted, h.disj⟩
 
 /-- a script that panics at call 1 is admissible for these theorems (non-vacuity) -/
@@ -42,10 +42,10 @@ may panic at any call, all programs, every interleaving — satisfies: if some t
 working thread is not waiting. A thread that unwinds out of `next()` leaves `completed` set behind (the unwind
 guard, `fix:` commit for D13), so every waiter's next check of `completed` ends its wait, and every later pull
 reports the end. -/
-theorem panic_no_hang (s : Script) (hf : Fused s) (ps : Nat → List Req) (hok : ∀ t, ∀ r ∈ ps t, ReqOk r)
+theorem panic_no_hang (s : Script) (ps : Nat → List Req) (hok : ∀ t, ∀ r ∈ ps t, ReqOk r)
     (σ : List Nat) (hW : (run s σ (init ps)).R < W) (t0 : Nat) (hb : Busy (run s σ (init ps)) t0) :
     ∃ t, Busy (run s σ (init ps)) t ∧ ¬ Spinning (run s σ (init ps)) t := by
-  obtain ⟨hi, hc, hd⟩ := cover_run hf σ (inv_init s ps hok) (cover_init ps) (by intro t b n h; simp [init] at h) hW
+  obtain ⟨hi, hc, hd⟩ := cover_run σ (inv_init s ps hok) (cover_init ps) (by intro t b n h; simp [init] at h) hW
   exact deadlock_free hi hc hd t0 hb
 
 /-- once the guard has stored `completed`, nobody spins any more -/
@@ -63,7 +63,7 @@ def twoNext : Nat → List Req := fun t => if t < 2 then [.single false, .single
 while thread 1 holds the next ticket. Now thread 0's guard sets `completed`, and thread 1's pull ends: it reports
 the end and so does its next pull. -/
 theorem C18_fixed_witness_no_hang :
-    let c := run panicAt1 [0,0,0,0,0,0,0, 0,0,0,0,0,0,0, 1,1,1, 1,1,1,1] (init twoNext)
+    let c := run panicAt1 [0,0,0,0,0,0,0,0, 0,0,0,0,0,0,0,0, 1,1,1, 1,1,1] (init twoNext)
     (c.th 0).pc = .dead 1 1 ∧ c.C = true ∧ (c.th 1).pc = .idle ∧ (c.th 1).todo = [] ∧
     (c.th 1).outs = [.fin, .fin] := by decide
 
